@@ -33,15 +33,20 @@ Init == l = 1 /\ rej = <<>>
 IsEv(e) == l <= Len(Trace) /\ Ev.ev = e /\ l' = l + 1
 
 Reset == IsEv("T") /\ UNCHANGED rej
+\* Holds(b) makes TLC evaluate a state-level guard as one boolean value.  Written as a bare conjunct it
+\* is expanded by Skip's ~ENABLED Regular, which explores every branch of every quantifier and implication
+\* of a guard that is false - exponential in the number of chunk end points for a rejected event.
+Holds(b) == b = TRUE
+MergeOK == /\ Ev.res = "ok"                               \* a panic has no action
+           /\ LET in == ToChunks(Ev.in)
+                  out == ToChunks(Ev.out)
+                  out2 == ToChunks(Ev.out2)
+              IN /\ SortedByBegin(in) /\ WellFormed(in)   \* generator precondition
+                 /\ IF CheckI THEN out = Run(Ev.strat, Ev.near, in)
+                    ELSE /\ Post(Ev.strat, Ev.near, in, out)
+                         /\ out2 = out                    \* applying twice changes nothing
 Merge == /\ IsEv("merge") /\ UNCHANGED rej
-         /\ Ev.res = "ok"                               \* a panic has no action
-         /\ LET in == ToChunks(Ev.in)
-                out == ToChunks(Ev.out)
-                out2 == ToChunks(Ev.out2)
-            IN /\ SortedByBegin(in) /\ WellFormed(in)   \* generator precondition
-               /\ IF CheckI THEN out = Run(Ev.strat, Ev.near, in)
-                  ELSE /\ Post(Ev.strat, Ev.near, in, out)
-                       /\ out2 = out                    \* applying twice changes nothing
+         /\ Holds(MergeOK)
 
 Regular == Reset \/ Merge
 RECURSIVE NextHdr(_)
